@@ -39,6 +39,13 @@ CLAIMED = {
             "well-formed conditional, Bayes identity p(x|y)p(y) = p(y|x)p(x) proved at all points with p(y) from the real marginal "
             "transformation (Woodbury + Sylvester hints checked by the kernel), and both round trips proved component-wise.",
             BASE_NOTE, "DESIGN §6-C09"),
+    "C11": ("Lemma layer over the real functions: one-step lemma (conditional transformation + conditioning == joint transformation + "
+            "coordinate conditioning == prior x likelihood normalised; predictive density == mass of prior x likelihood) for the full, "
+            "identity and NN kinds; two observations with individual (M_i,b_i,Sigma_i) in both orders and as a product; telescoping "
+            "evidence; one Kalman predict/update step against conditioning the joint. Arbitrary N / order / T follow by induction from "
+            "these lemmas and the Lean-checked commutativity of natural-parameter updates. The evidence clauses currently fail exactly "
+            "as recorded in known finding KF-set_y-normaliser-uses-Dx.",
+            BASE_NOTE + " The dense-joint reference for T>1 Kalman steps is an induction argument, not a mechanised obligation.", "DESIGN §6-C11"),
     "C12": ("For an ARBITRARY index map rho (repeats, permutations, wrapped negatives): slice of every factor / measure / density / "
             "conditional kind, slice-commutation with multiply (layout i*R2+j), hadamard, integrals, condition_on_x (layout r*N+n), the three "
             "affine transformations, entropy and KL, and the selector model of update() are proved for symbolic batch sizes.",
